@@ -308,6 +308,8 @@ def monitor_sub(case, obs, k, w):
                     if q in ideal.dirty:
                         continue
                     exp = [x for x in before.get(q, []) if not (w and q in low and x[0] < low[q] - w)]
+                    if wrapped and k > 0 and after.get(q, []) == before.get(q, []):
+                        continue      # an earlier cache of the wrapper refused the batch: this one was not asked
                     if exp != after.get(q, []):
                         out.append((dict({"class": "full-changed-live-entries", "window": bool(w)}, **tag),
                                     "StartForward returned ErrKvCacheFull but the live entries of sequence %d changed: %s -> %s" % (q, before.get(q), after.get(q)),
@@ -635,17 +637,6 @@ def gen_history(rng, cfg, klass, nops):
 
 
 SWA = ("swa", "swa-resume", "swa-copy", "swa-shift", "wrapper")
-def encoder_patched():
-    """TEMPORARY gate: the EncoderCache classes are generated by default once fixes/C06-encoder-shift.patch is in the tree
-    under test (or with C06_ENC=1), so that the check stays green on /repo until the coordinator has committed the fix"""
-    if os.environ.get("C06_ENC") == "1":
-        return True
-    try:
-        return "c.encoderPos -= " in open(os.path.join(vlib.REPO, "kvcache", "encoder.go")).read()
-    except OSError:
-        return False
-
-
 KLASSES = ["mixed", "mixed", "defrag", "defrag", "defrag", "full", "copy", "copy", "remove", "wild", "swa", "swa", "swa-resume", "swa-copy", "swa-shift", "wrapper", "wrapper", "enc", "encwrap", "encwrap"]
 
 
@@ -727,8 +718,6 @@ def gen_encwrap(rng, cfg, nops):
 
 def gen_case(rng, klass=None, nops=None):
     klass = klass or rng.choice(KLASSES)
-    if klass in ("enc", "encwrap") and not encoder_patched():
-        klass = "wrapper"
     cfg = gen_cfg(rng, klass)
     if klass == "enc":
         return {"cfg": cfg, "ops": gen_enc(rng, nops or rng.randint(4, 14)), "klass": klass}
@@ -749,8 +738,6 @@ def corpus_cases():
             if f.endswith(".json"):
                 c = json.load(open(os.path.join(d, f)))
                 c.setdefault("klass", "corpus")
-                if c["cfg"].get("kind") in ("enc", "encwrap") and not encoder_patched():
-                    continue
                 out.append(c)
     return out
 
@@ -1035,10 +1022,10 @@ def evaluate(ctx, binp, cases, search=True):
         c, o = cases[i], obs[i]
         model = ctx.coq_print(HEADER, model_term(c, o)) if len(ctx.mismatches) < 2 and not unrenderable(o) else None
         found = False
-        if search and not ctx.violations and c["cfg"].get("kind") not in ("enc", "encwrap"):
+        if search and not [v for v in ctx.violations if not vlib.match_known(ctx.known, v["sig"])] and c["cfg"].get("kind") not in ("enc", "encwrap"):
             found = search_around(ctx, binp, c)
         if not found:
-            ctx.mismatch("KvCache/Corr.chk_history (state and result after every operation)", {"cfg": c["cfg"], "ops": c["ops"]},
+            ctx.mismatch("KvCache/Corr.chk_*history (state and result after every operation, kind %s)" % c["cfg"].get("kind"), {"cfg": c["cfg"], "ops": c["ops"]},
                          [{k: s.get(k) for k in ("prim", "err", "r", "panic")} | ({"cells": s["caches"][0]["cells"], "ranges": s["caches"][0]["ranges"], "phys": s["caches"][0]["phys"]} if "caches" in s else {})
                           for s in o.get("steps", [])], model)
 
@@ -1070,8 +1057,18 @@ def search_around(ctx, binp, case):
         for _ in range(rng.randint(1, 6)):
             r = rng.random()
             have = [q for q in seqs if sim.pos(q)]
-            if r < 0.6 or not have:
+            if r < 0.5 or not have:
                 o, b = gen_fwd(rng, sim, seqs, rng.randint(1, max(1, cfg["maxbatch"])))
+                sim.fwd(b)
+                ext.append(o)
+            elif r < 0.75:
+                # what LoadCacheSlot does: ask CanResume, truncate there (or clear), continue
+                q = rng.choice(have)
+                ps = sim.pos(q)
+                p = rng.choice(ps[-3:] + [ps[-1] + 1])
+                ext.append({"op": "load", "seq": q, "pos": p})
+                sim.rm(q, p, MAXI32)
+                o, b = gen_fwd(rng, sim, [q], 1)
                 sim.fwd(b)
                 ext.append(o)
             else:
@@ -1155,7 +1152,7 @@ MANIFEST = {
     "engine": "coq-model+go-differential",
     "level_claimed": {
         "category": "proof",
-        "text": "Coq theorems (16, closed under the global context) about an executable model of kvcache/causal.go in which the cell metadata and "
+        "text": "Coq theorems (23, closed under the global context) about an executable model of kvcache/causal.go in which the cell metadata and "
                 "the physical K/V rows per location are separate: for EVERY history of operations (forward batches mixing sequences, CopyPrefix, "
                 "Remove of prefixes/middles/suffixes with shift and the prescribed clean-up on failure, CanResume), every capacity, padding and window, the "
                 "cache state refines a multiset specification (C06_refines, by induction over the operation list; the defragmentation loop with its "
@@ -1164,15 +1161,18 @@ MANIFEST = {
                 "exactly when the batch does not fit and leaves every live entry unchanged (C06_full_is_error). Against the ideal history that never "
                 "forgets: exact for caches without a window (C06_complete_no_window); for sliding-window caches exact IFF nothing evicted lies in the "
                 "token's window (C06_window_complete_partial), which holds for append/clear runs (C06_window_complete_appends) and fails after Remove of a "
-                "middle range (C06_window_complete_refuted = known finding). The model is tied to the real kvcache.Causal / WrapperCache by replaying "
+                "middle range (C06_window_complete_refuted = known finding); the full caller protocol incl. truncate-and-resume after CanResume is "
+                "complete (C06_window_complete_protocol). WrapperCache over two caches refines the pair of specifications, each layer type sees its "
+                "own cache's history, a refused pass leaves both caches as they were (C06_wrapper_*); EncoderCache exposes its entry exactly while "
+                "the image position is part of the sequence (C06_encoder_exact). The model is tied to the real kvcache.Causal / WrapperCache by replaying "
                 "generated histories on both and comparing the complete state and result after every operation inside Coq (vm_compute); the property is "
                 "monitored directly on the mask and the K/V views returned by Get.",
         "design_ref": "DESIGN.md section 5, C06",
     },
     "level_note": "Trusted: Coq kernel/vm_compute; the model-to-code tie is differential testing (generator-bounded) on a fake ml.Backend. Theorems describe the "
-                  "code with fixes/C06-defrag-merge.patch and fixes/C06-canresume-window.patch (the defects of the code as found are theorems about fx=false). "
+                  "code with fixes/C06-defrag-merge.patch, fixes/C06-canresume-window.patch and fixes/C06-encoder-shift.patch (the defects of the code as found are theorems about fx=false). "
                   "Hypotheses: non-empty batches, positions in [0,MaxInt32), Remove with begin<=end, failing Remove followed by Remove(seq,0,MaxInt32). Partial: "
-                  "truncate-and-resume on sliding-window caches is covered by C06_can_resume_sound but not assembled into a protocol-level completeness theorem; "
-                  "the WrapperCache model has no theorems of its own; reserve=true, SetCausal and EncoderCache are not modelled. See notes/C06.md.",
+                  "the WrapperCache(EncoderCache, Causal) pair has no theorem of its own (its components have); CopyPrefix is outside the sliding-window "
+                  "protocol theorem; reserve=true of Causal and SetCausal are not modelled. See notes/C06.md.",
     "technique": "Coq proof (invariants + refinement by induction over the operation list) + model/implementation differential check after every operation",
 }
